@@ -42,7 +42,7 @@ MANIFEST = dict(
          "(2) Table theorems (Props/C03Tables.lean, decide +kernel over Gen/PyStmts.lean regenerated on every run from all "
          "103 py_statements entries for C and C++ and 27 typemaps): one address per parse unit, goto-fail/fail-label "
          "consistency, every acquired resource released on success and failure paths or handed on, object_created entries "
-         "create the object, parse-unit / build-unit / PY_ctor arities, every unit has a value class. "
+         "create the object, the returned object of an entry that passes a C++ local is built from that local, parse-unit / build-unit / PY_ctor arities, every unit has a value class. "
          "(3) List-helper model (Props/C03Lists.lean): every item converted in order, the first rejected item gives TypeError "
          "with its index and leaves nothing allocated, fill/broadcast, to_PyList round trip, char** items. "
          "Ties on every run: emitted format string, keyword list, case call lists (count and referenced parameter), switch / "
@@ -67,9 +67,7 @@ MANIFEST = dict(
          "classes (the helper model decides which sequences a converter accepts); g++/gcc and CPython 3.12. Not modelled: "
          "CPython reference counts, numpy conversions, getter/setter clauses of struct members, py_implied expressions "
          "(opaque value), integers outside the C type's range (OverflowError), the extension-type object protocol (covered "
-         "by the sequence oracle only). Generator exclusions, each registered elsewhere: locals of std::string/vector/struct "
-         "intent(out) or vector arguments together with default arguments, struct/vector results with non-scalar arguments "
-         "(generated file does not compile, C05).",
+         "by the sequence oracle only). No generator exclusions remain.",
     technique="Lean 4 proof by induction over parameter / item lists + decide +kernel over regenerated tables + differential "
               "correspondence on emitted text, compiled extensions and compiled helpers + compiled-extension oracle",
 )
@@ -92,6 +90,7 @@ THEOREMS = {
         "Shroud.PyTables.stmts_goto_fail_consistent",
         "Shroud.PyTables.stmts_acquire_release",
         "Shroud.PyTables.stmts_created_has_object",
+        "Shroud.PyTables.stmts_ctor_expr_uses_passed_var",
         "Shroud.PyTables.types_parse_unit_arity",
         "Shroud.PyTables.types_build_arity",
         "Shroud.PyTables.types_ctor_arity",
@@ -310,7 +309,7 @@ def result_blk(node):
 def build_unit(tm, blk):
     """the Py_BuildValue unit intent_out uses"""
     if blk is not None and blk.object_created:
-        return "O"
+        return "N"
     return tm.PY_build_format or tm.PY_format or ""
 
 
@@ -1179,21 +1178,6 @@ def check_library(ctx, drv, lib, thorough, r, dis_gen, dis_call, extra_calls=())
                     break
             if res.get("leak"):
                 ctx.fail("leak:%s:%s" % (lib.name, sig), "%s: the wrapper left %d allocation(s) behind" % (sig, res["leak"]), replay)
-            if E is not None and any(p.kind == "clsptr" for p in E.params):
-                # a non-const class pointer: whatever goes wrong here is one finding (the raw C++ pointer is
-                # handed to Py_BuildValue("O"); the symptom - crash, garbage object - depends on heap contents)
-                trace, value = expectation(E, S, c["flag"])
-                if not (res["r"] == "ok" and res["trace"] == trace and same_value(res["value"], value)):
-                    ctx.fail("shadow-inout-raw-pointer:" + E.decl(lib.language),
-                             "%s: library must see %s and Python %s; got %s" % (sig, trace, json.dumps(value), json.dumps(res)[:300]),
-                             replay)
-                continue
-            if E is not None:
-                form = ("empty" if not c["pos"] and not c["kw"] else "positional" if not c["kw"] else
-                        "keyword" if not c["pos"] else "mixed")
-                n_, nd_, _f = pygen.shape_of(E)
-                k = "set=%d n=%d ndef=%d: %d args %s" % (len(group), n_, nd_, len(S), form)
-                DIST["arities"][k] = DIST["arities"].get(k, 0) + 1
             if res["r"] == "crash":
                 ctx.fail("crash:%s:%s" % (lib.name, sig), "interpreter crashed (rc=%s) in %s" % (res.get("rc"), sig), replay)
                 continue
